@@ -12,6 +12,7 @@ PLAN_Q12 = {  # N <= 2, quick: all ordered pairs over a representative mode set
     'shipped': True, 'uniform': [],
     'perop': ['NQ', 'SRQ8a', 'SRQ8s', 'SRQ16', 'DRQ8c', 'WO8c', 'WO4c', 'FP16'],
     'layered': {'base': ['SRQ8a', 'DRQ8c'], 'override': ['NQ', 'SRQ16']},
+    'shadow': {'base': ['DRQ4c'], 'override': ['DRQ8c', 'SRQ8a']},
     'io': ['none', 'both8'], 'io_on': ('shipped',),
 }
 PLAN_T12 = {  # thorough: the whole 12-mode alphabet, all ordered pairs
@@ -19,6 +20,7 @@ PLAN_T12 = {  # thorough: the whole 12-mode alphabet, all ordered pairs
     'perop': md.MODE12 + ['DRQ4t', 'WO8t', 'SRQ8at', 'SRQ16w4'],
     'layered': {'base': ['SRQ8a', 'SRQ16', 'DRQ8c', 'WO8c'],
                 'override': ['NQ', 'SRQ8a', 'SRQ16', 'DRQ8c', 'FP16']},
+    'shadow': {'base': ['DRQ4c', 'SRQ16w4'], 'override': ['DRQ8c', 'SRQ8a', 'WO8c']},
     'io': ['none', 'both8', 'out8', 'in8', 'both16'],
     'io_on': ('shipped', 'layered'),
 }
